@@ -306,3 +306,141 @@ pub fn sequential_outcomes<S, R: Clone + Ord + std::fmt::Debug, F: Fn(&S) -> Str
     }
     set
 }
+
+// ---------------------------------------------------------------------------------------
+// Generic driver: preemption-bounded exploration + invariant + brute-force linearizability,
+// reporting into a `Report` (used by the lock-granularity checks of C02/C15 and C11).
+
+use crate::evidence::{Report, Violation};
+
+pub struct LinCheck<'a, S, R> {
+    pub property: &'a str,
+    pub site: &'a str,
+    pub label: String,
+    pub spec: &'a Spec<S, R>,
+    /// preemption bounds to iterate (None = unbounded)
+    pub bounds: Vec<Option<usize>>,
+    pub max_schedules: u64,
+    /// observable final state (part of the outcome compared with the sequential executions)
+    pub observe: &'a (dyn Fn(&S) -> String + Sync),
+    /// further clauses judged on every complete execution: (kind, detail)
+    pub extra: &'a (dyn Fn(&Execution<R>, &S) -> Vec<(String, String)> + Sync),
+    /// compare outcomes with the sequential executions of the real structure
+    pub linearizable: bool,
+}
+
+/// The violation kinds found by running one schedule (used for exploration and for replay).
+pub fn judge_schedule<S: Send + Sync + 'static, R: Send + Clone + Ord + std::fmt::Debug + 'static>(
+    c: &LinCheck<S, R>,
+    seq: &std::collections::BTreeSet<String>,
+    x: &Execution<R>,
+    shared: &S,
+) -> (String, Vec<(String, String)>) {
+    let outcome = format!("{:?}|{}", x.returns, (c.observe)(shared));
+    let mut v = vec![];
+    if let Some(sv) = &x.step_violation {
+        v.push(("step_invariant".to_string(), sv.clone()));
+    }
+    if x.panicked {
+        v.push(("panic".to_string(), "an operation panicked".to_string()));
+    }
+    v.extend((c.extra)(x, shared));
+    if c.linearizable && !seq.contains(&outcome) {
+        v.push(("not_linearizable".to_string(), format!("concurrent outcome {outcome} equals no one-at-a-time execution {:?}", seq)));
+    }
+    (outcome, v)
+}
+
+pub fn check_linearizable<S: Send + Sync + 'static, R: Send + Clone + Ord + std::fmt::Debug + 'static>(c: &LinCheck<S, R>, rep: &mut Report) {
+    let seq = if c.linearizable { sequential_outcomes(c.spec, |s| (c.observe)(s)) } else { Default::default() };
+    let mut seen: std::collections::BTreeSet<String> = Default::default();
+    let mut total = 0u64;
+    let mut preempted = 0u64;
+    let mut bound_done: Option<String> = None;
+    let mut found: Vec<(String, String, Vec<usize>)> = vec![];
+    for b in &c.bounds {
+        let mut local: Vec<(String, String, Vec<usize>)> = vec![];
+        let stats = explore(c.spec, *b, c.max_schedules, |x, shared, choices| {
+            let (outcome, v) = judge_schedule(c, &seq, x, shared);
+            seen.insert(outcome);
+            if x.points.iter().any(|p| p.running.map_or(false, |r| p.choices[p.chosen].0 != r)) {
+                preempted += 1;
+            }
+            for (k, d) in v {
+                if !local.iter().any(|f| f.0 == k) {
+                    local.push((k, d, choices.to_vec()));
+                }
+            }
+            local.is_empty()
+        });
+        total += stats.schedules;
+        if stats.capped {
+            rep.caps.push(format!("{}: schedule cap hit at preemption bound {:?}", c.label, b));
+            break;
+        }
+        bound_done = Some(match b {
+            Some(n) => n.to_string(),
+            None => "unbounded".into(),
+        });
+        let stop = !local.is_empty();
+        for f in local {
+            if !found.iter().any(|g| g.0 == f.0) {
+                found.push(f);
+            }
+        }
+        if stop {
+            break;
+        }
+    }
+    rep.states += seen.len() as u64;
+    rep.transitions += total;
+    rep.executions += total;
+    for o in &seen {
+        rep.outcomes.insert(format!("{}:{o}", c.site));
+    }
+    rep.witness("thread_schedules_with_preemption", preempted);
+    if seen.len() >= 2 {
+        rep.witness("thread_config_with_several_outcomes", 1);
+    }
+    rep.configs.push(serde_json::json!({"config": c.label, "thread_schedules": total, "preemption_bound_completed": bound_done, "distinct_outcomes": seen.len(), "sequential_outcomes": seq.len()}));
+    for (kind, detail, choices) in found {
+        let (a, _) = run(c.spec, &choices, true);
+        let (b, _) = run(c.spec, &choices, true);
+        rep.replay_checks += 1;
+        if a.trace != b.trace || a.returns != b.returns {
+            rep.replay_divergences += 1;
+            rep.machinery.push(format!("{}: schedule {:?} does not replay deterministically", c.label, choices));
+            continue;
+        }
+        rep.violations.push(Violation { property: c.property.into(), kind, site: c.site.into(), config: c.label.clone(), history: serde_json::json!({"thread_schedule": choices}), detail, log: a.trace });
+    }
+}
+
+/// Re-run one recorded schedule (twice); true if a violation of `kind` occurs.
+pub fn replay_schedule<S: Send + Sync + 'static, R: Send + Clone + Ord + std::fmt::Debug + 'static>(c: &LinCheck<S, R>, choices: &[usize], kind: &str) -> bool {
+    let seq = if c.linearizable { sequential_outcomes(c.spec, |s| (c.observe)(s)) } else { Default::default() };
+    let (a, sa) = run(c.spec, choices, true);
+    let (b, _) = run(c.spec, choices, true);
+    if a.trace != b.trace || a.returns != b.returns {
+        eprintln!("MACHINERY replay divergence");
+        std::process::exit(2);
+    }
+    for l in &a.trace {
+        println!("{l}");
+    }
+    let (outcome, v) = judge_schedule(c, &seq, &a, &sa);
+    println!("outcome: {outcome}");
+    for (k, d) in &v {
+        println!("VIOLATED {k}: {d}");
+    }
+    v.iter().any(|(k, _)| k == kind)
+}
+
+/// A waker that does nothing (operations under engine B are polled by their own thread).
+pub fn noop_waker() -> std::task::Waker {
+    struct N;
+    impl std::task::Wake for N {
+        fn wake(self: Arc<Self>) {}
+    }
+    std::task::Waker::from(Arc::new(N))
+}
